@@ -11,7 +11,7 @@ KIND = {"then_inline": "KAttach", "then_e": "KAttach", "detach_inline": "KAttach
         "wait_then": "KAttach", "connect": "KConnect", "detach": "KSilent", "drop": "KSilent",
         "get_const": "KSilent", "wait": "KSilent", "get_move": "KGet", "peek_get_move": "KGet",
         "waitfor5_get": "KGet", "waitfor25_get": "KGet", "waitfor45_get": "KGet",
-        "waitfor5_then": "KAttach", "waitfor25_then": "KAttach", "waitfor45_then": "KAttach"}
+        "waitfor5_then": "KAttach", "waitfor25_then": "KAttach", "waitfor45_then": "KAttach", "fassign": "KSilent"}
 
 WORD = {"E": "WE", "C": "WC", "R": "WR"}
 
@@ -127,7 +127,7 @@ def main(ck):
     heads = [r for r in rows if "mode" in r]
     traces = [r for r in rows if "trace" in r]
     ck.cov["evaluations"] = sum(h["executions"] for h in heads)
-    ck.cov["exhaustive"] = bool(heads) and all(h["exhaustive"] for h in heads) and len(heads) == 2 * (48 + 96)
+    ck.cov["exhaustive"] = bool(heads) and all(h["exhaustive"] for h in heads) and len(heads) == 2 * (5 * 13 + 5 * 6 * 4)
     ck.cov["scenarios"] = len(heads)
     for t in traces:
         if t["fail"]:
